@@ -26,6 +26,10 @@
    matchIdx, startIdx; commit := any c <= old commit); cur and vote persist.
    Acknowledgements already filed stay in [acks].
 
+   Snapshots: logs are LOGICAL logs, compaction is invisible.  SInstall: a
+   follower installs a snapshot standing for a prefix K of the log M some
+   leader of a term <= t had when it committed an index >= |K| (see do_install).
+
    Pools (never consumed: loss, duplication, reordering, arbitrary delay):
      started  vote requests (term, candidate, candidate's log)      (also ghost)
      grants   granted votes (term, voter, candidate)                (also ghost)
@@ -96,6 +100,21 @@ Definition match_ge (m : list (N * nat)) (v : N) (k : nat) : Prop :=
 
 Definition log_eqb (a b : list entry) : bool :=
   if list_eq_dec entry_eq_dec a b then true else false.
+
+(* K is a prefix of L *)
+Definition lprefixb (K L : list entry) : bool := log_eqb (firstn (length K) L) K.
+
+Lemma lprefixb_true K L : lprefixb K L = true -> prefix K L.
+Proof.
+  unfold lprefixb, log_eqb. destruct (list_eq_dec entry_eq_dec (firstn (length K) L) K) as [E|];
+    [|discriminate]. intros _. apply prefix_iff. exact E.
+Qed.
+
+Lemma lprefixb_false K L : lprefixb K L = false -> ~ prefix K L.
+Proof.
+  unfold lprefixb, log_eqb. destruct (list_eq_dec entry_eq_dec (firstn (length K) L) K) as [|E];
+    [discriminate|]. intros _ H. apply E. apply prefix_iff. exact H.
+Qed.
 
 Definition init : state :=
   mkS (fun _ => mkN 0 None Follower [] [] 0 0 [] 0) [] [] [] [] [] [] [] [].
@@ -212,6 +231,22 @@ Definition do_crash (n : N) (c : nat) (s : state) : state :=
       (started s) (grants s) (appends s) (acks s) (elected s) (created s)
       (committed s) (cmts s).
 
+(* follower f installs a snapshot sent by the leader l of term t.  K is the
+   prefix of the leader's LOGICAL log the snapshot stands for.  The follower
+   keeps its own log when K is a prefix of it and replaces it by K otherwise;
+   everything up to |K| is durable; the commit index c moves anywhere between
+   its old value and |K|; the answer acknowledges |K|.  [committed] is left
+   alone (it records the entries at the commit points of leaders only). *)
+Definition do_install (f t l : N) (K : list entry) (c : nat) (s : state) : state :=
+  let x := st s f in
+  let same := lprefixb K (log x) in
+  mkS (upd (st s) f (mkN t (if cur x <? t then None else vote x) Follower []
+                         (if same then log x else K)
+                         (if same then Nat.max (flushed x) (length K) else length K)
+                         c [] 0))
+      (started s) (grants s) (appends s)
+      ((t, f, length K) :: acks s) (elected s) (created s) (committed s) (cmts s).
+
 (* gb = true: the reconfiguration guard (b) "the leader has committed an entry
    of its own term" is in force (the model); gb = false: the flawed variant. *)
 Inductive gstep (gb : bool) (s : state) : state -> Prop :=
@@ -253,7 +288,13 @@ Inductive gstep (gb : bool) (s : state) : state -> Prop :=
     gstep gb s (do_commit l k s)
 | SFlush n k :
     (flushed (st s n) <= k <= length (log (st s n)))%nat -> gstep gb s (do_flush n k s)
-| SCrash n c : (c <= commit (st s n))%nat -> gstep gb s (do_crash n c s).
+| SCrash n c : (c <= commit (st s n))%nat -> gstep gb s (do_crash n c s)
+| SInstall f t l K L0 tc k M c :
+    f <> l -> cur (st s f) <= t -> In (t, l, L0) (elected s) ->
+    In (tc, k, M) (cmts s) -> tc <= t -> (length K <= k)%nat ->
+    K = firstn (length K) M ->
+    (commit (st s f) <= c <= Nat.max (commit (st s f)) (length K))%nat ->
+    gstep gb s (do_install f t l K c s).
 
 Definition step := gstep true.
 
